@@ -764,6 +764,24 @@ impl<'m> Interp<'m> {
     }
 }
 
+impl<'m> Interp<'m> {
+    /// Call a method on an object value. Returns (return value, out/inout parameter values, final object).
+    pub fn run_method(&mut self, id: ir::FunctionId, this: V, args: &[V]) -> R<(V, Vec<V>, V)> {
+        // the object lives in a reserved slot of a dedicated frame
+        const THIS_SLOT: u32 = u32::MAX;
+        let mut holder = HashMap::new();
+        holder.insert(THIS_SLOT, this);
+        self.frames.push(holder);
+        let frame_index = self.frames.len() - 1;
+        self.this_stack.push(Place { root: Root::Local(frame_index, ir::VariableId(THIS_SLOT)), path: Vec::new() });
+        let r = self.run_function(id, args);
+        self.this_stack.pop();
+        let holder = self.frames.pop().unwrap();
+        let (ret, outs) = r?;
+        Ok((ret, outs, holder.get(&THIS_SLOT).cloned().unwrap_or(V::Void)))
+    }
+}
+
 fn is_assignment(op: &ir::IntrinsicOp) -> bool {
     use ir::IntrinsicOp::*;
     matches!(
